@@ -304,9 +304,7 @@ Proof.
     pose proof (max_prec_bounds v1) as B1. pose proof (max_prec_bounds v) as B.
     rewrite (wrap_i8_small p1) in * by lia.
     rewrite (wrap_i8_small (p1 + (s - s1)) O2) in Hc.
-    destruct (wrap_i8 p) eqn:WP; fold (wrap_i8 p) in *.
-    all: rewrite <- WP in Hc.
-    all: destruct (p1 + (s - s1) <=? wrap_i8 p) eqn:Inf.
+    destruct (p1 + (s - s1) <=? wrap_i8 p) eqn:Inf.
     all: try (destruct (negb (in_native v x)); [discriminate|];
               destruct (negb (in_native v (x * 10 ^ (s - s1)))); [discriminate|];
               destruct (negb (prec_ok v p (x * 10 ^ (s - s1)))); [discriminate|];
@@ -324,4 +322,166 @@ Proof.
     all: assert (0 < 10 ^ (s - s1)) by (apply Z.pow_pos_nonneg; lia).
     all: assert (0 < 10 ^ p1) by (apply Z.pow_pos_nonneg; lia).
     all: nia.
+Qed.
+
+(* ------------------------------------------------------------------ shape of a decimal coerced type *)
+Lemma ty_ok_dec : forall v p s, ty_ok (TDec v p s) = true ->
+  1 <= p <= max_prec v /\ 0 <= s <= max_prec v.
+Proof.
+  intros v p s H. cbn in H. apply andb_true_iff in H as [H1 H2]. apply Z.leb_le in H2.
+  apply valid_dec_bounds in H1. lia.
+Qed.
+
+Lemma coerced_dec_shape_dec_int : forall v1 p1 s1 j v p s,
+  ty_ok (TDec v1 p1 s1) = true ->
+  comparison_coercion (TDec v1 p1 s1) (TInt j) = Some (TDec v p s) ->
+  s = Z.max s1 0 /\ int_fits v (TInt j) = true.
+Proof.
+  intros v1 p1 s1 j v p s Hty H. apply ty_ok_dec in Hty.
+  unfold comparison_coercion, binary_numeric_coercion in H. cbn [nty_eqb is_numeric negb orb] in H.
+  destruct v1, j; cbn in H; cbv [wider_ps] in H; cbv beta iota in H;
+    try discriminate; injection H as <- <- <-; cbn [max_prec] in *; (split; [lia | reflexivity]).
+Qed.
+
+Lemma coerced_dec_shape_dec_dec : forall v1 p1 s1 v2 p2 s2 v p s,
+  ty_ok (TDec v1 p1 s1) = true -> ty_ok (TDec v2 p2 s2) = true ->
+  comparison_coercion (TDec v1 p1 s1) (TDec v2 p2 s2) = Some (TDec v p s) ->
+  s = Z.max s1 s2.
+Proof.
+  intros v1 p1 s1 v2 p2 s2 v p s H1 H2 H. apply ty_ok_dec in H1, H2.
+  unfold comparison_coercion in H.
+  destruct (nty_eqb (TDec v1 p1 s1) (TDec v2 p2 s2)) eqn:E.
+  { apply nty_eqb_eq in E. injection E as -> -> ->. injection H as <- <- <-. lia. }
+  unfold binary_numeric_coercion in H. rewrite E in H. cbn [is_numeric negb orb] in H.
+  destruct v1, v2; cbn in H; cbv [wider_ps] in H; cbv beta iota in H;
+    repeat match type of H with
+           | context [if ?c then _ else _] => destruct c
+           end;
+    try discriminate; injection H as <- <- <-; cbn [max_prec] in *; lia.
+Qed.
+
+Lemma coerced_dec_shape_int_int : forall i j v p s,
+  comparison_coercion (TInt i) (TInt j) = Some (TDec v p s) ->
+  s = 0 /\ int_fits v (TInt i) = true /\ int_fits v (TInt j) = true.
+Proof.
+  intros i j v p s H. destruct i, j; cbn in H; try discriminate; injection H as <- <- <-;
+    repeat split; reflexivity.
+Qed.
+
+Lemma coerced_dec_shape : forall ta tb v p s,
+  ty_ok ta = true -> ty_ok tb = true ->
+  comparison_coercion ta tb = Some (TDec v p s) ->
+  s = Z.max (scale_of ta) (scale_of tb) /\ int_fits v ta = true /\ int_fits v tb = true.
+Proof.
+  intros ta tb v p s Ha Hb H.
+  destruct ta as [|i|f|v1 p1 s1], tb as [|j|g|v2 p2 s2]; try discriminate; cbn [scale_of int_fits].
+  - apply coerced_dec_shape_int_int in H as (-> & F1 & F2). cbn [int_fits] in *. auto.
+  - rewrite comparison_coercion_sym in H.
+    apply coerced_dec_shape_dec_int in H as [-> F]; trivial. cbn [int_fits] in F. rewrite Z.max_comm. auto.
+  - apply coerced_dec_shape_dec_int in H as [-> F]; trivial. cbn [int_fits] in F. auto.
+  - apply coerced_dec_shape_dec_dec in H; auto.
+Qed.
+
+(* Decimals: whenever the operands are coerced to a DECIMAL type and the evaluation produces a
+   truth value, it is the comparison of the two rationals x/10^sa and y/10^sb. *)
+Theorem dec_cmp_exact_or_error : forall ta tb x y op t r,
+  ty_ok ta = true -> ty_ok tb = true -> val_ok ta x = true -> val_ok tb y = true ->
+  comparison_coercion ta tb = Some t -> is_decimal t = true ->
+  eval_ovf ta tb = false ->
+  eval_cmp op ta x tb y = EOk r ->
+  r = spec_cmp op ta x tb y.
+Proof.
+  intros ta tb x y op t r Ha Hb Hx Hy Hc Hd Ho He.
+  destruct t as [| | |v p s]; try discriminate.
+  destruct (coerced_dec_shape ta tb v p s Ha Hb Hc) as (Hs & Fa & Fb).
+  unfold eval_ovf in Ho. rewrite Hc in Ho.
+  apply orb_false_iff in Ho as [_ Ho]. apply orb_false_iff in Ho as [Oa Ob].
+  unfold eval_cmp in He. rewrite Hc in He. cbn [exact_ty] in He.
+  destruct (cast_val ta (TDec v p s) x) as [x'| |] eqn:Cx; try discriminate;
+    destruct (cast_val tb (TDec v p s) y) as [y'| |] eqn:Cy; try discriminate.
+  injection He as <-.
+  assert (Sa : 0 <= scale_of ta).
+  { destruct ta; cbn; try lia. apply ty_ok_dec in Ha. lia. }
+  assert (Sb : 0 <= scale_of tb).
+  { destruct tb; cbn; try lia. apply ty_ok_dec in Hb. lia. }
+  apply cast_to_dec_exact in Cx; trivial; [|lia].
+  apply cast_to_dec_exact in Cy; trivial; [|lia].
+  unfold spec_cmp. subst x' y'.
+  set (sa := scale_of ta) in *. set (sb := scale_of tb) in *.
+  assert (K : 0 < 10 ^ (sa + sb - s)) by (apply Z.pow_pos_nonneg; lia).
+  rewrite <- (zcmp_scale op (x * 10 ^ (s - sa)) (y * 10 ^ (s - sb)) _ K).
+  rewrite <- !Z.mul_assoc, <- !Z.pow_add_r by lia.
+  replace (s - sa + (sa + sb - s)) with sb by lia.
+  replace (s - sb + (sa + sb - s)) with sa by lia.
+  reflexivity.
+Qed.
+
+(* the i8 overflows (debug panic / release wrap) need a Decimal256 operand *)
+Lemma ty_ok_dec_small : forall v p s, ty_ok (TDec v p s) = true -> not256 (TDec v p s) = true ->
+  1 <= p <= 38 /\ 0 <= s <= 38.
+Proof.
+  intros v p s H N. apply ty_ok_dec in H. destruct v; cbn in *; try discriminate; lia.
+Qed.
+
+Lemma wider_ovf_small : forall p1 s1 p2 s2,
+  1 <= p1 <= 38 -> 0 <= s1 <= 38 -> 1 <= p2 <= 38 -> 0 <= s2 <= 38 -> wider_ovf p1 s1 p2 s2 = false.
+Proof.
+  intros. unfold wider_ovf. rewrite !(wrap_i8_small p1), !(wrap_i8_small p2) by lia.
+  rewrite !(wrap_i8_small (p1 - s1)), !(wrap_i8_small (p2 - s2)) by lia.
+  replace (fits_i8 (p1 - s1)) with true by (symmetry; apply fits_i8_bounds; lia).
+  replace (fits_i8 (p2 - s2)) with true by (symmetry; apply fits_i8_bounds; lia).
+  replace (fits_i8 (Z.max (p1 - s1) (p2 - s2) + Z.max s1 s2)) with true by (symmetry; apply fits_i8_bounds; lia).
+  reflexivity.
+Qed.
+
+Lemma comparison_ovf_small : forall ta tb,
+  ty_ok ta = true -> ty_ok tb = true -> not256 ta = true -> not256 tb = true ->
+  comparison_ovf ta tb = false.
+Proof.
+  assert (DI : forall v1 p1 s1 j, ty_ok (TDec v1 p1 s1) = true -> not256 (TDec v1 p1 s1) = true ->
+            match coerce_numeric_type_to_decimal v1 (TInt j) with
+            | Some (TDec _ p2 s2) => wider_ovf p1 s1 p2 s2
+            | _ => false
+            end = false).
+  { intros v1 p1 s1 j H N. pose proof (ty_ok_dec_small _ _ _ H N).
+    destruct v1, j; cbn; trivial; try discriminate; apply wider_ovf_small; lia. }
+  intros ta tb Ha Hb Na Nb. unfold comparison_ovf.
+  destruct (nty_eqb ta tb); trivial.
+  destruct ta as [|i|f|v1 p1 s1], tb as [|j|g|v2 p2 s2]; try discriminate; trivial.
+  - apply DI; trivial.
+  - apply DI; trivial.
+  - pose proof (ty_ok_dec_small _ _ _ Ha Na). pose proof (ty_ok_dec_small _ _ _ Hb Nb).
+    apply wider_ovf_small; lia.
+Qed.
+
+Lemma cast_ovf_small : forall ta v p s,
+  ty_ok ta = true -> not256 ta = true -> scale_of ta <= s <= 38 ->
+  cast_ovf ta (TDec v p s) = false.
+Proof.
+  intros ta v p s Ha Na Hs. unfold cast_ovf. destruct (nty_eqb ta (TDec v p s)); trivial.
+  destruct ta as [|i|f|v1 p1 s1]; trivial.
+  pose proof (ty_ok_dec_small _ _ _ Ha Na). cbn [scale_of] in Hs.
+  unfold cast_dec_dec_ovf.
+  destruct (dvar_eqb v1 v && (s1 =? s) && (p1 <=? p)); trivial.
+  destruct (s1 <=? s); trivial.
+  rewrite (wrap_i8_small (s - s1)), (wrap_i8_small p1) by lia.
+  replace (fits_i8 (s - s1)) with true by (symmetry; apply fits_i8_bounds; lia).
+  replace (fits_i8 (p1 + (s - s1))) with true by (symmetry; apply fits_i8_bounds; lia).
+  cbn [negb orb]. apply andb_false_r.
+Qed.
+
+Theorem no_ovf_below_256 : forall ta tb,
+  ty_ok ta = true -> ty_ok tb = true -> not256 ta = true -> not256 tb = true ->
+  eval_ovf ta tb = false.
+Proof.
+  intros ta tb Ha Hb Na Nb. unfold eval_ovf. rewrite comparison_ovf_small by trivial. cbn [orb].
+  destruct (comparison_coercion ta tb) as [t|] eqn:C; trivial.
+  destruct t as [|k|g|v p s].
+  1-3: unfold cast_ovf; destruct (nty_eqb ta _), (nty_eqb tb _), ta, tb; reflexivity.
+  destruct (coerced_dec_shape ta tb v p s Ha Hb C) as (Hs & _ & _).
+  assert (Sa : 0 <= scale_of ta <= 38).
+  { destruct ta; cbn; try lia. pose proof (ty_ok_dec_small _ _ _ Ha Na). lia. }
+  assert (Sb : 0 <= scale_of tb <= 38).
+  { destruct tb; cbn; try lia. pose proof (ty_ok_dec_small _ _ _ Hb Nb). lia. }
+  rewrite !cast_ovf_small by (trivial; lia). reflexivity.
 Qed.
